@@ -459,6 +459,11 @@ def main(tier: str) -> int:
     ntok = 7 if tier == "quick" else 10
     for n in range(0, ntok + 1):
         tasks.append({"kind": "tok", "n": n})
+    # (b') concrete token lists with multi-character atoms
+    lists = well_formed_token_lists(9 if tier == "quick" else 10)
+    chunk = max(1, len(lists) // 32 + 1)
+    for i in range(0, len(lists), chunk):
+        tasks.append({"kind": "tok_concrete", "chunk": i // chunk, "lists": lists[i:i + chunk]})
     results = runner.pmap(_dispatch, tasks)
     from collections import Counter
     c = Counter()
@@ -480,6 +485,8 @@ def main(tier: str) -> int:
         solver_s += st.get("solver_seconds", 0.0)
         if r["paths"] >= 2:
             nontrivial += 1
+        if t["kind"] == "tok_concrete":
+            t = r["task"]  # without the token lists themselves
         if r["outcome"] == "violation":
             rep.violation(f"{t}: {r['cex']['what']}: {r['cex'].get('text', r['cex'].get('tokens'))!r} -> library "
                           f"{r['cex']['library']} reference {r['cex']['reference']}",
@@ -522,9 +529,67 @@ def main(tier: str) -> int:
     return rep.finish(total=len(tasks))
 
 
+MULTI_ATOMS = ["a", "b", "ab"]  # atoms of which one is the concatenation of the others
+
+
+def well_formed_token_lists(max_len):
+    """every token list of at most max_len tokens that is exactly one parenthesised form over MULTI_ATOMS"""
+    out = []
+
+    def items(budget):
+        """all sequences of forms using at most `budget` tokens"""
+        yield []
+        if budget <= 0:
+            return
+        for first in forms(budget):
+            for rest in items(budget - len(first)):
+                yield first + rest
+
+    def forms(budget):
+        if budget >= 1:
+            for a in MULTI_ATOMS:
+                yield [a]
+        if budget >= 2:
+            for inner in items(budget - 2):
+                yield ["("] + inner + [")"]
+
+    for f in forms(max_len):
+        if f[0] == "(":
+            out.append(f)
+    return out
+
+
+def run_concrete_trees(task):
+    """(b') the tree builder on concrete token lists whose atoms have several characters: plain exhaustive differential
+    run (no symbolic dimension: the symbolic token tasks use one-character tokens, which cannot collide by concatenation)"""
+    from collections import deque
+    import pddl_plus_parser.lisp_parsers.pddl_tokenizer as pt
+    res = {"task": {"kind": "tok_concrete", "chunk": task["chunk"]}, "outcome": "held", "paths": 0, "obligations": 0, "cex": None}
+    tk = pt.PDDLTokenizer(pddl_str="()")
+    for toks in task["lists"]:
+        res["paths"] += 1
+        res["obligations"] += 1
+        exp = sexpr.read_tokens(list(toks))
+        try:
+            d = deque(toks)
+            got = tk.read_from_tokens(d)
+            ok = got == exp and len(d) == 0
+            shown = str(got)
+        except Exception as e:  # noqa
+            ok, shown = False, f"{type(e).__name__}: {e}"
+        if not ok:
+            res["outcome"] = "violation"
+            res["cex"] = {"what": "tree differs from the token structure", "tokens": list(toks), "library": shown,
+                          "reference": str(exp), "kind": "read_from_tokens_concrete"}
+            break
+    return res
+
+
 def _dispatch(task):
     if task["kind"] == "tok":
         return run_token_task(task)
+    if task["kind"] == "tok_concrete":
+        return run_concrete_trees(task)
     return run_char_task(task)
 
 
@@ -585,6 +650,10 @@ def replay(payload, path):
         print("tokens", toks, "library", got, "reference", exp)
         bad = (got[0] == "ok" and (sexpr.flatten(got[1]) != toks[: len(toks) - got[2]] or (exp[0] == "ok" and got[2])))\
             or (got[0] != "ok" and exp[0] == "ok")
+    elif cx.get("kind") == "read_from_tokens_concrete":
+        r = run_concrete_trees({"chunk": 0, "lists": [cx["tokens"]]})
+        print(r["outcome"], r.get("cex"))
+        bad = r["outcome"] == "violation"
     else:
         bad, a, b = disagree_concrete(cx["text"], cx["file_mode"], cx["kind"])
         print(repr(cx["text"]), "library", a, "reference", b)
